@@ -274,10 +274,13 @@ impl SwiftField for Field54ReceiverCorrespondent {
                 let field = Field54D::parse(value)?;
                 Ok(Field54ReceiverCorrespondent::D(field))
             }
-            _ => {
-                // No variant specified, fall back to default parse behavior
+            None => {
+                // No option letter given at all: fall back to the content heuristic
                 Self::parse(value)
             }
+            Some(other) => Err(ParseError::InvalidFormat {
+                message: format!("Field54ReceiverCorrespondent has no option '{}'", other),
+            }),
         }
     }
 
